@@ -3,30 +3,17 @@ from fractions import Fraction
 import lib
 from lib import qlit, qseq
 
-IMPORTS = 'QcField Sums Series Tracer'
+IMPORTS = 'QcField Sums Series Tracer TracerExec'
 
 # instantiate the raw operations of Tracer.v with series of length D over Qc
 DEFS = """
 Definition ser := seq Qc.
-Section Inst.
-Variable D : nat.
-Definition t_zero : ser := nseq D (0%R : K).
-Definition t_natmul (n : nat) (x : ser) : ser := scaleS ((n%:R)%R : K) (x : seq K).
-Definition t_unval (f : nat) (x : ser) : ser :=
-  match f with 0%N => squareS (x : seq K) | 1%N => recipS (x : seq K) | _ => negS (x : seq K) end.
-Definition t_unpart (f : nat) (x y : ser) : ser :=
-  match f with
-  | 0%N => scaleS ((2%:R)%R : K) (x : seq K)                            (* _pb_square: x * 2 *)
-  | 1%N => negS (recipS (squareS (x : seq K)))                         (* _pb_reciprocal: -reciprocal(square(x)) *)
-  | _ => constS ((-1)%R : K) D
-  end.
-Definition t_pown (x : ser) (n : nat) : ser := pownatS (x : seq K) n.
+(* the executable instance is TracerExec.v (proved to refine the ring instance in TracerRefine.v) at K := Qc *)
 Definition T_record := @record ser.
-Definition T_replay_out := @replay_out ser t_zero (@addS K) (@subS K) (@mulS K) (@divS K) (@negS K) t_pown t_unval.
-Definition T_eval_out := @eval_out ser t_zero (@addS K) (@subS K) (@mulS K) (@divS K) (@negS K) t_pown t_unval.
-Definition T_grad := @gradient_like ser t_zero (@addS K) (@subS K) (@mulS K) (@divS K) (@negS K) t_natmul t_pown t_unval t_unpart.
-Definition T_tangent_out := @tangent_out ser t_zero (@addS K) (@subS K) (@mulS K) (@divS K) (@negS K) t_natmul t_pown t_unval t_unpart.
-End Inst.
+Definition T_replay_out : nat -> tape ser -> seq nat -> seq ser -> seq ser := @X_replay_out K.
+Definition T_eval_out : nat -> seq (instr ser) -> seq nat -> seq ser -> seq ser := @X_eval_out K.
+Definition T_grad : nat -> tape ser -> seq nat -> seq ser -> seq ser -> seq ser := @X_grad K.
+Definition T_tangent_out : nat -> tape ser -> seq nat -> seq ser -> seq ser -> seq ser := @X_tangent_out K.
 Definition cst (D : nat) (c : Qc) : ser := constS (c : K) D.
 (* tape shape for comparison with cg.functionList: (kind code, argument ids) *)
 Definition opcode (o : nodeop ser) : nat :=
